@@ -591,7 +591,8 @@ NUM_VALUES = {
     "0.25": 0.25, "1e-300": 1e-300, "1e300": 1e300, "1e-40": 1e-40, "1e30": 1e30, "3.4028235e38": 3.4028235e38, "16777217": 16777217.0,
     "inf": math.inf, "-inf": -math.inf, "nan": math.nan, "int:0": 0, "int:1": 1, "int:2": 2, "int:3": 3, "int:-2": -2,
     "int:big": 2 ** 62 + 1, "sqrt2_32": numpy.float32(2) ** numpy.float32(0.5), "third_32": numpy.float32(1) / numpy.float32(3),
-    "third_64": 1.0 / 3.0, "pi_64": math.pi, "cplx": 1.5 - 2j, "true": True, "false": False,
+    "third_64": 1.0 / 3.0, "pi_64": math.pi, "cplx": 1.5 - 2j, "cplx_nzim": complex(1.5, -0.0), "cplx_nzre": complex(-0.0, 2.0), "cplx_pzim": complex(1.5, 0.0),
+    "true": True, "false": False,
 }
 FATERMS_NUMS = {"0": 0, "1": 1, "-1": -1, "2": 2, "3": 3, "4": 4}   # FATerms' small literals are Python ints (as in C04)
 
